@@ -162,6 +162,10 @@ impl ObjectReceiver {
             return;
         }
         self.push_from_cache(now);
+        if self.state != State::Receiving {
+            // Completed or in error while the cached packets were replayed
+            return;
+        }
 
         if self.oti.is_none() {
             self.cache(pkt)
